@@ -156,3 +156,13 @@ pub fn qs_read_verify(r: &mut QueryServerReadTransaction<'_>) -> Vec<Result<(), 
 pub fn txn_cid(w: &QueryServerWriteTransaction<'_>) -> Cid {
     w.get_txn_cid().clone()
 }
+
+/// The internal (system) identity the server uses for its own operations.
+pub fn identity_internal() -> Identity {
+    Identity::from_internal()
+}
+
+// ---------------------------------------------------------------------------------------------
+// be — index key types (IdxMeta::new and Backend::new are public but name these)
+
+pub use crate::be::idxkey::{IdxKey, IdxSlope};
